@@ -33,7 +33,7 @@ theorem mdp_newRoot (T : Nat) (eb : DEnvB r) (rs : DRestruct r) (m : OMap r) (c 
                   extraData := some (m.ty, 0, m.seed), inlined := m.isInlined } := by
   show MapSlab.dataSlab (md_data _ _) = _
   cases hi : m.isInlined <;> simp only [md_data, md_hdr, md_extra, MapSlab.dataSlab.injEq, MapDataSlab.mk.injEq,
-      MapSlabHeader.mk.injEq, Option.some.injEq, Prod.mk.injEq, and_true, true_and] <;>
+      MapSlabHeader.mk.injEq, Option.some.injEq, Prod.mk.injEq, true_and] <;>
     refine ⟨rfl, ⟨rfl, ?_, rfl⟩, rfl, ⟨rfl, rfl, rfl⟩, hi⟩ <;>
     · show UInt32.ofNat ((if m.isInlined then _ else _) + _) = _
       rw [hi]; rfl
@@ -60,5 +60,46 @@ theorem Ob_OrderedMap_PopIterate_heap (T : Nat) (eb : DEnvB r) (rs : DRestruct r
   cases hi : m.isInlined <;>
     simp [OrderedMap_Inlined, MapSlab_Inlined, MapDataSlab_Inlined, storeSlab, MapSlab_SlabID, MapDataSlab_SlabID,
       md_extra]
+
+/-- the storage `Ob_OrderedMap_PopIterate_heap` ends in: the model's `Ctx` (one `store` of the root unless inlined), the
+    callback received the model's list, the heap holds the new root (unless inlined: then nothing is stored), the old
+    tree below the root is gone, everything outside the old tree is untouched -/
+theorem Ob_OrderedMap_PopIterate_heap_post (m : OMap r) (s : MHSt r) :
+    (mdp_topPost m s).ctx = (OMap.popIterate m s.ctx).2.2 ∧
+    (mdp_topPost m s).popped = s.popped ++ (OMap.popIterate m s.ctx).1 ∧
+    (OMap.popIterate m s.ctx).2.1.count = 0 ∧
+    (m.isInlined = false →
+      MHolds (mdp_topPost m s).heap (OMap.popIterate m s.ctx).2.1.d (OMap.popIterate m s.ctx).2.1.root
+        (some (md_extra (OMap.popIterate m s.ctx).2.1))) ∧
+    (m.isInlined = true → (mdp_topPost m s).heap = (mdp_post m.d m.root s).heap) ∧
+    (∀ id ∈ md_ids m.d m.root, id ≠ m.rootID → (mdp_topPost m s).heap id = none) ∧
+    (∀ id, id ∉ md_ids m.d m.root → (mdp_topPost m s).heap id = s.heap id) := by
+  have hroot : m.rootID = (MTree.hdr m.d m.root).id := rfl
+  have hctx : (OMap.popIterate m s.ctx).2.2 =
+      if m.isInlined then (MTree.popIterate m.d m.root s.ctx).2.2
+      else (MTree.popIterate m.d m.root s.ctx).2.2.emit (.store m.rootID) := rfl
+  have hpop : (OMap.popIterate m s.ctx).1 = (MTree.popIterate m.d m.root s.ctx).1 := rfl
+  refine ⟨?_, ?_, rfl, ?_, ?_, ?_, ?_⟩
+  · rw [hctx]; cases hi : m.isInlined <;> simp [mdp_topPost, hi, mdp_post]
+  · rw [hpop]; cases hi : m.isInlined <;> simp [mdp_topPost, hi, mdp_post]
+  · intro hi
+    show MHolds _ 0 _ _
+    simp only [MHolds, mdp_topPost, hi]
+    simp only [md_tree, Bool.false_eq_true, if_false, MHSt.store_heap]
+    have hid : (OMap.popIterate m s.ctx).2.1.root.hdr.id = m.rootID := rfl
+    exact if_pos hid
+  · intro hi; simp [mdp_topPost, hi]
+  · intro id hid hne
+    have hid' := hid
+    rw [mdp_ids_cons, ← hroot] at hid'
+    have ht : id ∈ (md_ids m.d m.root).tail := by
+      rcases List.mem_cons.mp hid' with h | h
+      · exact absurd h hne
+      · exact h
+    cases hi : m.isInlined <;> simp [mdp_topPost, hi, mdp_post, ht, hne]
+  · intro id hid
+    have hne : id ≠ m.rootID := fun h => hid (by rw [mdp_ids_cons, ← hroot, h]; exact List.mem_cons_self)
+    have ht : id ∉ (md_ids m.d m.root).tail := fun h => hid (by rw [mdp_ids_cons]; exact List.mem_cons_of_mem _ h)
+    cases hi : m.isInlined <;> simp [mdp_topPost, hi, mdp_post, ht, hne]
 
 end Atree.TransEq
